@@ -44,7 +44,8 @@ pub struct C17;
 const EXTRA_NAMES: [&str; 8] = ["x-vendor", "zz", "a b", "keep_me", "é", "build-id", "x", "_note"];
 
 fn extra_value(name: &str, i: usize) -> J {
-    match (name.len() + i) % 4 {
+    match (name.len() + i) % 5 {
+        4 => json::s("two lines\nand a tab\t, a control \u{1}, a quote \" and a backslash \\"),
         0 => json::s("kept across updates"),
         1 => json::n(20260922),
         2 => json::obj(vec![("nested", J::Arr(vec![json::n(1), json::s("two")])), ("flag", J::Bool(true))]),
